@@ -280,8 +280,8 @@ def run(ctx):
     rep = Replayer(ctx.seed)
     rep.replay(exh, par=ctx.q(8, 12))
     n_exh = len(rep.sessions)
-    rep.replay(rr, par=ctx.q(8, 12), budget_s=ctx.q(25, 240))
-    rep.replay(rnd, par=ctx.q(8, 12), budget_s=ctx.q(20, 240))
+    rep.replay(rr, par=ctx.q(8, 12), budget_s=ctx.q(25, 150))
+    rep.replay(rnd, par=ctx.q(8, 12), budget_s=ctx.q(20, 150))
     trace = ctx.path("c41.ndjson")
     with open(trace, "w") as f:
         for s in rep.sessions:
